@@ -125,12 +125,14 @@ let judge _name ins outs =
   let startline = (match List.assoc_opt "sl" go with
       | Some t -> let (a, b) = split1 ':' t in Some (chars_of_hex a, chars_of_hex b)
       | None -> None) in
-  let o = { ob_after = am; ob_fwd_same = (get go "fwd" = "1"); ob_sections = sections;
+  (* "forwarded the same" = the harness's comparison of the two Write() outcomes
+     and the trailer keys announced without a value (not part of msg) unchanged *)
+  let o = { ob_after = am; ob_fwd_same = (get go "fwd" = "1") && td_o = td_a; ob_sections = sections;
             ob_reparse = ob_reparse; ob_records = nat_of_int rec_n; ob_err = (err <> "0");
             ob_src_failed = srcfail; ob_startline = startline } in
   (* ---------------- property oracle on the real observation ---------------- *)
   if sec_err then VPropfail ("sections_partition", "reading-a-section-failed") else
-  if not (forwarded_ok m o) || td_o <> td_a then
+  if not (forwarded_ok m o) then
     VPropfail ("forwarded_unchanged",
                sp (Printf.sprintf "%s orig=%s after=%s wire-same=%s unlogged-framing=%s logged-framing=%s"
                      (if srcfail && get go "fwd" = "0" then
